@@ -127,9 +127,19 @@ def run(chk, prog):
     cm = prog.fn("vfps::DynamicRFKickMap::__calcModulation")
     chk.used(cm)
     s = I.scan(cm)
-    em = [c for c in s.calls if c.callee and c.callee.endswith("::emplace")]
-    A.require(len(em) == 1, "__calcModulation: expected one emplace")
+    em = [c for c in s.calls if c.callee and c.callee.split("::")[-1] in ("emplace", "push") and "queue" in c.callee]
+    A.require(len(em) == 1, "__calcModulation: expected one entry queued per step (found %d emplace/push calls)" % len(em))
     il = [x for x in A.walk(em[0].node) if x["k"] == "InitListExpr" and len(x.get("inits", [])) == 2]
+    if not il:
+        # the entry is built in a named local first: {phase, amplitude} is that local's initialiser
+        for a_ in em[0].node.get("args", []):
+            d_ = A.declref(a_)
+            if d_ is not None:
+                for y_ in A.walk(cm["body"]):
+                    if y_.get("k") == "DeclStmt":
+                        for dd in y_.get("decls", []):
+                            if dd.get("decl") == d_.get("decl") and isinstance(dd.get("init"), dict):
+                                il = [x for x in A.walk(dd["init"]) if x["k"] == "InitListExpr" and len(x.get("inits", [])) == 2]
     A.require(il, "__calcModulation: {phase, amplitude} initialiser not found")
     il = il[-1]
     ph, am = s._try(il["inits"][0]), s._try(il["inits"][1])
